@@ -11,7 +11,7 @@ impl Op for Fill {
     fn apply<G: TooDeeOpsMut<u8>>(&self, g: &mut G) {
         g.fill(self.0);
     }
-    fn check(&self, _old: &Win, new: &Win) {
+    fn check<const B: usize>(&self, _old: &Win<B>, new: &Win<B>) {
         probe_eq(new, |_c, _r| self.0);
     }
 }
@@ -21,7 +21,7 @@ impl Op for Swap {
     fn apply<G: TooDeeOpsMut<u8>>(&self, g: &mut G) {
         g.swap(self.0, self.1);
     }
-    fn check(&self, old: &Win, new: &Win) {
+    fn check<const B: usize>(&self, old: &Win<B>, new: &Win<B>) {
         let (a, b) = (self.0, self.1);
         probe_eq(new, |c, r| {
             if (c, r) == a {
@@ -40,7 +40,7 @@ impl Op for SwapRows {
     fn apply<G: TooDeeOpsMut<u8>>(&self, g: &mut G) {
         g.swap_rows(self.0, self.1);
     }
-    fn check(&self, old: &Win, new: &Win) {
+    fn check<const B: usize>(&self, old: &Win<B>, new: &Win<B>) {
         let (r1, r2) = (self.0, self.1);
         probe_eq(new, |c, r| {
             if r == r1 {
@@ -59,7 +59,7 @@ impl Op for SwapCols {
     fn apply<G: TooDeeOpsMut<u8>>(&self, g: &mut G) {
         g.swap_cols(self.0, self.1);
     }
-    fn check(&self, old: &Win, new: &Win) {
+    fn check<const B: usize>(&self, old: &Win<B>, new: &Win<B>) {
         let (c1, c2) = (self.0, self.1);
         probe_eq(new, |c, r| {
             if c == c1 {
@@ -92,7 +92,7 @@ impl Op for RowPair {
             i += 1;
         }
     }
-    fn check(&self, old: &Win, new: &Win) {
+    fn check<const B: usize>(&self, old: &Win<B>, new: &Win<B>) {
         let (r1, r2) = (self.0, self.1);
         probe_eq(new, |c, r| {
             if r == r1 {
@@ -117,7 +117,7 @@ impl Op for IndexWrite {
             g[r][c] = g[r][c].wrapping_add(1);
         }
     }
-    fn check(&self, old: &Win, new: &Win) {
+    fn check<const B: usize>(&self, old: &Win<B>, new: &Win<B>) {
         let a = self.0;
         probe_eq(new, |c, r| if (c, r) == a { old.at(c, r).wrapping_add(1) } else { old.at(c, r) });
     }
@@ -128,8 +128,8 @@ fn pick_for(kind: u8) -> Pick {
 }
 
 /// which: 0 fill, 1 swap, 2 swap_rows, 3 swap_cols, 4 row_pair_mut, 5 IndexMut write
-pub fn inrange(which: u8, kind: u8, pc: usize, pr: usize) {
-    let cells = nd::bytes::<16>();
+pub fn inrange_b<const B: usize>(which: u8, kind: u8, pc: usize, pr: usize) {
+    let cells = nd::bytes::<B>();
     let gm = geometry(kind, pc, pr, pick_for(kind));
     let (w, h) = gm.size;
     if which == 0 {
@@ -154,6 +154,10 @@ pub fn inrange(which: u8, kind: u8, pc: usize, pr: usize) {
         let op = IndexWrite((nd::below(w), nd::below(h)), nd::bool_());
         run(kind, pc, pr, gm, cells, &op, false);
     }
+}
+
+pub fn inrange(which: u8, kind: u8, pc: usize, pr: usize) {
+    inrange_b::<16>(which, kind, pc, pr)
 }
 
 /// Out-of-range (or, for row_pair_mut, equal) arguments over the full usize range must panic.
